@@ -254,9 +254,15 @@ def make_model(name):
     return get_model(name)
 
 
+_ALN_CACHE = {}
+
+
 def make_aln(tips, i):
-    from cogent3 import make_aligned_seqs
-    return make_aligned_seqs(rows_for(tips, i), moltype="dna")
+    """alignment objects are built once per process (cogent3 does not modify an alignment it is given)"""
+    if (tips, i) not in _ALN_CACHE:
+        from cogent3 import make_aligned_seqs
+        _ALN_CACHE[(tips, i)] = make_aligned_seqs(rows_for(tips, i), moltype="dna")
+    return _ALN_CACHE[(tips, i)]
 
 
 def build_lf(model, tips, aln=0):
@@ -304,9 +310,7 @@ def resolve_step(step, hist, cur, lo, hi, names):
         return t
     if k in ("back", "backset"):
         j = step[1]
-        if len(hist) <= j:
-            return None
-        t = hist[-1 - j].copy()
+        t = hist[max(0, len(hist) - 1 - j)].copy()      # (the first vector when the history is shorter)
         if k == "backset":
             put(t, step[2])
         return t
@@ -403,7 +407,9 @@ def real_apply(lf, op, M, state):
             raise Mismatch("calculator/number-of-optimiser-parameters",
                            f"calculator has {len(info)} optimiser parameters, the settings have {M.nfp()} free values")
         cur, val, trace = run_calc_steps(calc, op[1])
-        if op[2]:
+        lo, hi = calc.get_bounds_vectors()
+        # handing a vector back to the function is only defined inside the bounds
+        if op[2] and bool(numpy.all(cur >= lo - 1e-12) and numpy.all(cur <= hi + 1e-12)):
             lf.update_from_calculator(calc)
             adopt_mprobs = False
             for (name, edges), x in zip(info, cur):
@@ -660,7 +666,13 @@ def shrink(case, run, label):
 def _fail(cname, case, run, res):
     label, msg = res[0], res[1]
     small = shrink(case, run, label)
-    key = f"{cname}/{case['cfg'][0]}/{label}/{' > '.join(kind(o) for o in small)}"
+    if len(small) == 2 and contains_bad(small[0]) and small[0][0] in ("postponed", "batch") and not contains_bad(small[1]):
+        # witness pattern: a block that was refused half-way, then ANY operation, and the function no longer follows
+        # (which part of the view shows it first depends on the operation; it is kept in the message)
+        key = f"{cname}/{case['cfg'][0]}/not-following-after-refused-block/{small[0][0]} > any operation"
+        msg = f"[{label} after {kind(small[1])}] {msg}"
+    else:
+        key = f"{cname}/{case['cfg'][0]}/{label}/{' > '.join(kind(o) for o in small)}"
     return ("fail", key, f"{json.dumps(case)}: {msg} | shrunk history: {json.dumps(small)}")
 
 
@@ -790,12 +802,8 @@ def run_calculator(case):
     if not lnl_close(float(cur_val), float(lf.lnL), RTOL_FRESH):
         return ("initial-value", f"new calculator gives {cur_val!r}, lf.lnL {float(lf.lnL)!r}")
     hist = [cur.copy()]
-    done = []
-    for step in case["steps"]:
+    for n, step in enumerate(case["steps"]):
         t = resolve_step(step, hist, cur, lo, hi, names)
-        if t is None:
-            return ("skip", "")
-        done.append(step[0])
         raised = ref_raised = None
         try:
             val = apply_vector(calc, cur, t, mode)
@@ -806,38 +814,48 @@ def run_calculator(case):
             ref_val = ref.testoptparvector(t.copy())
         except Exception as e:
             ref_raised = e
-        tag = ">".join(done)
         if (raised is None) != (ref_raised is None):
-            return (f"raises-differently/{tag}",
-                    f"vector {t.tolist()}: history-laden calculator -> {raised!r}, new calculator -> {ref_raised!r}")
+            return ("raises-differently", f"step {n} vector {t.tolist()}: history-laden calculator -> {raised!r}, "
+                                          f"new calculator -> {ref_raised!r}")
         if raised is not None:
-            # the step is cancelled: the calculator stays at the previous vector
-            ref = lf.make_calculator()
-            ref_val = ref.testoptparvector(cur.copy())
-            t = cur
-            val = calc.testfunction()
+            # the step is cancelled.  Where the calculator then stands is left open (the previous vector, or the one
+            # before when the step started by undoing): wherever it says it is, it has to be a working calculator
+            # there.  The vector it reports is taken as its setting from here on.
             what = "after-cancelled-step"
+            t = numpy.array(calc.get_value_array(), float)
+            ref = lf.make_calculator()
+            try:
+                ref_val = ref.testoptparvector(t.copy())
+            except Exception as e:
+                return ("cancelled-step-not-rolled-back",
+                        f"step {n} was refused with {type(raised).__name__}; the calculator now reports the vector "
+                        f"{t.tolist()}, at which a new calculator raises {type(e).__name__} (previous vector "
+                        f"{cur.tolist()})")
+            val = calc.testfunction()
         else:
             what = "after-step"
         same = (math.isnan(val) and math.isnan(ref_val)) or val == ref_val
         if not same:
-            return (f"value/{what}/{tag}", f"vector {t.tolist()}: calculator gives {val!r}, a new calculator moved "
-                                           f"there in one step gives {ref_val!r}")
+            return (f"value/{what}", f"step {n} vector {t.tolist()}: calculator gives {val!r}, a new calculator moved "
+                                     f"there in one step gives {ref_val!r}")
         tf = calc.testfunction()
         if not ((math.isnan(tf) and math.isnan(val)) or tf == val):
-            return (f"testfunction/{what}/{tag}", f"change returned {val!r}, testfunction() says {tf!r}")
+            return (f"testfunction/{what}", f"step {n}: change returned {val!r}, testfunction() says {tf!r}")
         got = numpy.array(calc.get_value_array(), float)
         if not numpy.allclose(got, t, rtol=1e-12, atol=1e-12, equal_nan=True):
-            return (f"value-array/{what}/{tag}", f"get_value_array() {got.tolist()}, expected {t.tolist()}")
+            return (f"value-array/{what}", f"step {n}: get_value_array() {got.tolist()}, expected {t.tolist()}")
+        if not numpy.allclose(numpy.array(calc.last_values, float), t, rtol=1e-12, atol=1e-12, equal_nan=True):
+            return (f"last-values/{what}", f"step {n}: the calculator diffs the next vector against "
+                                           f"{list(calc.last_values)} but its cells hold {t.tolist()}")
         d = cells_differ(calc, ref)
         if d:
-            return (f"cells/{what}/{tag}", f"vector {t.tolist()}: {d}")
-        if raised is None:
-            cur = t
+            return (f"cells/{what}", f"step {n} vector {t.tolist()}: {d}")
+        if not numpy.array_equal(t, hist[-1]):
             hist.append(t.copy())
-            cur_val = val
+        cur = t
+        cur_val = val
     # hand the final vector back to the function (only defined inside the bounds)
-    if case.get("commit", True) and bool(numpy.all(cur >= lo - 1e-12) and numpy.all(cur <= hi + 1e-12)):
+    if bool(numpy.all(cur >= lo - 1e-12) and numpy.all(cur <= hi + 1e-12)):
         try:
             lf.update_from_calculator(calc)
             got = float(lf.lnL)
@@ -867,11 +885,19 @@ def contract_calculator(case):
     res = run_calculator(case)
     if res is None:
         return ("ok", len(case["steps"]) > 0)
-    if res[0] == "skip":
-        return ("skip",)
+    label = res[0]
+    steps = list(case["steps"])
+    i = 0
+    while i < len(steps) and len(steps) > 1:        # drop steps while the same check keeps failing
+        trial = steps[:i] + steps[i + 1:]
+        r = run_calculator(dict(case, steps=trial))
+        if r is not None and r[0] == label:
+            steps = trial
+        else:
+            i += 1
     setup = " ".join(kind(o) for o in case["setup"]) or "default"
-    key = f"calculator/{case['cfg'][0]}/{case['mode']}/{res[0]}/setup[{setup}]"
-    return ("fail", key, f"{json.dumps(case)}: {res[1]}")
+    key = f"calculator/{case['cfg'][0]}/{case['mode']}/{label}/{'>'.join(x[0] for x in steps)}/setup[{setup}]"
+    return ("fail", key, f"{json.dumps(case)}: {res[1]} | shrunk steps: {json.dumps(steps)}")
 
 
 # ------------------------------------------------------------------------------------------------ generators
@@ -880,7 +906,7 @@ def alphabet(model, tips):
     P = MAIN[model]
     flip = MPROBS_FREE_BY_DEFAULT[model]            # the non-default constancy of motif probs
     clade = {"tip_names": ["a", "b"], "clade": True, "stem": True} if tips == 4 else {"tip_names": ["a", "b"]}
-    commit = ["calc", [["set", {"0": 0.3}], ["back", 1], ["set", {"-1": 0.07, "0": -0.2}]], True]
+    commit = ["calc", [["set", {"0": 0.3}], ["back", 1], ["set", {"-1": 0.07, "0": 0.2}]], True]
     core = [
         ["rule", P, {}, {"init": 2.5}],
         ["rule", P, {"edge": "a"}, {"init": 4.0}],
@@ -971,6 +997,11 @@ def random_step(rnd):
     return ["set", {"*": round(rnd.uniform(0.005, 0.05), 4)}]
 
 
+def _products(alpha, n):
+    for ops in itertools.product(alpha, repeat=n):
+        yield list(ops)
+
+
 def gen_history(tier, seed):
     rnd = random.Random(seed)
     thorough = tier == "thorough"
@@ -978,22 +1009,28 @@ def gen_history(tier, seed):
         core, more = alphabet(*cfg)
         full = core + more
         yield {"cfg": cfg, "ops": []}
-        # every history over the full alphabet up to length 2 (thorough: 3 on the first two configurations)
+        # length <= 2: the full alphabet (quick: on two configurations, core alphabet on the other two)
         for n in (1, 2):
-            for ops in itertools.product(full, repeat=n):
-                yield {"cfg": cfg, "ops": list(ops)}
+            for ops in _products(full if (thorough or ci < 2) else core, n):
+                yield {"cfg": cfg, "ops": ops}
+        # length 3: core alphabet (quick: first configuration, a seeded third of the second);
+        # thorough: full alphabet on the first configuration
+        if thorough and ci == 0:
+            for ops in _products(full, 3):
+                yield {"cfg": cfg, "ops": ops}
+        elif thorough or ci == 0:
+            for ops in _products(core, 3):
+                yield {"cfg": cfg, "ops": ops}
+        elif ci == 1:
+            for ops in _products(core, 3):
+                if rnd.random() < 0.34:
+                    yield {"cfg": cfg, "ops": ops}
+        # length 4: core alphabet, thorough, two configurations
         if thorough and ci < 2:
-            for ops in itertools.product(full, repeat=3):
-                yield {"cfg": cfg, "ops": list(ops)}
-        elif ci < 2 or thorough:
-            for ops in itertools.product(core, repeat=3):
-                yield {"cfg": cfg, "ops": list(ops)}
-        # length 4 over the core alphabet: thorough, all configurations
-        if thorough:
-            for ops in itertools.product(core, repeat=4):
-                yield {"cfg": cfg, "ops": list(ops)}
+            for ops in _products(core, 4):
+                yield {"cfg": cfg, "ops": ops}
     # beyond the frontier: seeded random histories of random operations
-    for j in range(6000 if thorough else 500):
+    for j in range(4000 if thorough else 300):
         cfg = CONFIGS[j % 4]
         n = rnd.choice([5, 6]) if thorough else rnd.choice([4, 5, 6])
         yield {"cfg": cfg, "ops": [random_op(rnd, *cfg) for _ in range(n)]}
@@ -1007,15 +1044,19 @@ def gen_export(tier, seed):
         full = core + more
         yield {"cfg": cfg, "ops": []}
         for n in (1, 2):
-            for ops in itertools.product(full, repeat=n):
-                yield {"cfg": cfg, "ops": list(ops)}
-        if thorough or ci == 0:
-            for ops in itertools.product(core, repeat=3):
-                yield {"cfg": cfg, "ops": list(ops)}
-        if thorough and ci < 2:
-            for ops in itertools.product(core, repeat=4):
-                yield {"cfg": cfg, "ops": list(ops)}
-    for j in range(4000 if thorough else 300):
+            for ops in _products(full if (thorough or ci < 2) else core, n):
+                yield {"cfg": cfg, "ops": ops}
+        if thorough:
+            for ops in _products(core, 3):
+                yield {"cfg": cfg, "ops": ops}
+        elif ci < 2:
+            for ops in _products(core, 3):
+                if rnd.random() < 0.2:
+                    yield {"cfg": cfg, "ops": ops}
+        if thorough and ci == 0:
+            for ops in _products(core, 4):
+                yield {"cfg": cfg, "ops": ops}
+    for j in range(3000 if thorough else 200):
         cfg = CONFIGS[j % 4]
         yield {"cfg": cfg, "ops": [random_op(rnd, *cfg) for _ in range(rnd.choice([3, 4, 5, 6]))]}
 
@@ -1047,6 +1088,14 @@ def calc_setups(model):
     ]
 
 
+def _step_sequences(n):
+    for steps in itertools.product(CALC_STEPS, repeat=n):
+        # going back further than the number of steps made so far is the same as going back to the start
+        if any(st[0] in ("back", "backset") and st[1] > i for i, st in enumerate(steps)):
+            continue
+        yield list(steps)
+
+
 def gen_calculator(tier, seed):
     rnd = random.Random(seed + 2)
     thorough = tier == "thorough"
@@ -1054,17 +1103,17 @@ def gen_calculator(tier, seed):
         for si, setup in enumerate(calc_setups(model)):
             for tips in ((4, 3) if thorough else (4,)):
                 for mode in ("T", "C", "CR", "T0"):
-                    if mode == "T0" and si:
+                    if mode in ("CR", "T0") and (si or tips == 3):
                         continue
                     cfg = [model, tips]
                     for n in (1, 2):
-                        for steps in itertools.product(CALC_STEPS, repeat=n):
-                            yield {"cfg": cfg, "setup": setup, "mode": mode, "steps": list(steps)}
-                    if thorough and tips == 4 and mode != "T0":
-                        for steps in itertools.product(CALC_STEPS, repeat=3):
-                            yield {"cfg": cfg, "setup": setup, "mode": mode, "steps": list(steps)}
+                        for steps in _step_sequences(n):
+                            yield {"cfg": cfg, "setup": setup, "mode": mode, "steps": steps}
+                    if thorough and tips == 4 and mode in ("T", "C") and not (si and model == "GN"):
+                        for steps in _step_sequences(3):
+                            yield {"cfg": cfg, "setup": setup, "mode": mode, "steps": steps}
     pool = CALC_STEPS + CALC_STEPS[4:7] * 2
-    for j in range(6000 if thorough else 700):
+    for j in range(4000 if thorough else 300):
         model = ("HKY85", "GN", "GS")[j % 3]
         n = rnd.choice([3, 4]) if not thorough else rnd.choice([4, 5, 6, 8])
         steps = [rnd.choice(pool) if rnd.random() < 0.7 else random_step(rnd) for _ in range(n)]
